@@ -208,9 +208,9 @@ def handle : List String → Option String
     let v ← parseNat? v; let mf ← parseBool? mf; let pre ← parseNat? pre; let sched ← parseSched? sched
     let cfg : Cfg := ⟨mode, b, fakePubs ⟨p, nch, nck, v, mf⟩⟩
     -- `pre` uninterrupted process runs first (prospective mode: the earlier iterations)
-    let t0 := (List.range pre).foldl (fun t _ => (runSched cfg (List.replicate (b + 2) none) t []).1) Tree.empty
-    let (t, tr) := runSched cfg sched t0 []
-    pure s!"{showEvents tr} {showTree t}"
+    let t0 := (List.range pre).foldl (fun t _ => (runSched cfg (List.replicate (b + 2) none) t []).tree) Tree.empty
+    let r := runSched cfg sched t0 []
+    pure s!"{showEvents r.events} {showTree r.tree}"
   | _ => none
 
 end Batchie.Orchestrator
